@@ -46,6 +46,9 @@ func main() {
 		genContext(w, r, a.Tier)
 		genPlaced(w, r, a.Tier)
 	}
+	if tmpFile != "" {
+		os.Remove(tmpFile)
+	}
 	if err := w.Close(); err != nil {
 		panic(err)
 	}
